@@ -1309,3 +1309,47 @@ fn g_evict_2_eviction_at_new_revision() {
     std::mem::forget(input);
     std::mem::forget(z);
 }
+
+//@off(cbmc-crashes-after-35-min) id=G-EVICT-3 kind=C props=C05 timeout=2400 fn=Zalsa::new_revision,Zalsa::evict_lru,Zalsa::insert_jar,IngredientImpl::reset_for_new_revision,IngredientImpl::requires_reset_for_new_revision
+//@ pre: as G-EVICT-2, with the input ingredient and the function ingredient registered in a `Zalsa` the way `insert_jar` registers them (reset list built from `requires_reset_for_new_revision`); then a new revision starts, or `trigger_lru_eviction` (= `Zalsa::evict_lru`) is called
+//@ post: the named key's value is gone (fully tracked memo), header untouched - eviction really runs at a new revision and on an explicit trigger; a new revision advances the revision by one, a trigger leaves it alone
+#[cfg(kani)]
+#[kani::proof]
+#[kani::unwind(5)]
+#[kani::stub(crate::sync::max_parallelism, crate::verif_support::one_core)]
+#[kani::stub(crate::function::IngredientImpl::execute, stub_execute)]
+fn g_evict_3_new_revision_and_trigger_evict() {
+    use crate::input::verif::KI;
+    let mut z = crate::zalsa::verif::bare_zalsa();
+    let mut input = crate::input::IngredientImpl::<KI>::new(IngredientIndex::new(0));
+    let mi = MemoIngredientIndex::from_usize(0);
+    crate::input::verif::register_memo_type::<Memo<CEv>>(&mut input, mi);
+    let id = crate::input::verif::alloc_input_v(z.runtime(), &input, (1, 2), [Revision::start(), Revision::start()], [Durability::LOW, Durability::LOW]);
+    let (va, ca, d) = (vk::any_revision(), vk::any_revision(), vk::any_durability());
+    let m: &'static mut Memo<CEv> = Box::leak(Box::new(Memo::<CEv>::new(Some(11), va, crate::zalsa_local::verif::revs(d, ca, true, crate::zalsa_local::verif::empty_derived()))));
+    let ptr = std::ptr::NonNull::from(&mut *m);
+    // SAFETY: current revision supplied
+    let _ = unsafe { z.table().memos::<crate::input::Value<KI>>(id, z.current_revision()) }.insert(mi, ptr);
+    z.verif_push(Box::new(input));
+    z.verif_push(Box::new(IngredientImpl::<CEv>::new(IngredientIndex::new(1), crate::memo_ingredient_indices::verif::singleton(0), 1)));
+    // SAFETY: single-threaded harness
+    unsafe { EVICT_KEY = Some(id) };
+    let r0 = z.current_revision();
+    let trigger_only: bool = vk::any();
+    if trigger_only {
+        z.evict_lru();
+        assert!(z.current_revision() == r0);
+    } else {
+        let r = z.new_revision();
+        assert!(r == r0.next() && z.current_revision() == r);
+    }
+    // SAFETY: current revision supplied
+    let got = unsafe { z.table().memos::<crate::input::Value<KI>>(id, z.current_revision()) }.get::<Memo<CEv>>(mi).unwrap();
+    // SAFETY: leaked memo
+    let m = unsafe { got.as_ref() };
+    assert!(m.value.is_none());
+    assert!(m.header.verified_at.load() == va && m.header.revisions.changed_at == ca);
+    vcover!(trigger_only, "explicit trigger");
+    vcover!();
+    std::mem::forget(z);
+}
